@@ -5,6 +5,7 @@ from .. import astutil as A
 from .. import paths as P
 from ..loader import methods
 from ..selftest.runner import M, TW, V
+from . import common as K
 
 PROPERTY = "C14"
 EXPLANATION = (
@@ -44,7 +45,11 @@ def check_fold(ctx):
     if not ctx.require(len(loops) == 1, "C14-a", g, "getter: expected one loop"):
         return
     loop = loops[0]
-    ctx.check("C14-a", A.src(loop.iter) == "self._vars", loop,
+    order = K.iter_order(loop.iter, "self._vars")
+    if order == "unknown":
+        ctx.unknown("C14-a", loop, "Compose getter iterates `%s`, which the analyser cannot relate to self._vars" % A.src(loop.iter))
+        return
+    ctx.check("C14-a", order == "forward", loop,
               "Compose getter iterates `%s`, not self._vars forwards: vn(...v1(x)) is not what is computed" % A.src(loop.iter),
               detail="Compose getter iterates self._vars forwards", construct="getter-iter:%s" % A.src(loop.iter))
     var = loop.target.id if isinstance(loop.target, ast.Name) else None
@@ -73,7 +78,11 @@ def check_fold(ctx):
     if not ctx.require(len(cloops) == 1, "C14-a", init, "Compose.__init__: expected one context loop"):
         return
     cl = cloops[0]
-    ctx.check("C14-a", A.src(cl.iter) == "self._vars[1:]", cl,
+    corder = K.iter_order(cl.iter, "self._vars", allow_slice="self._vars[1:]")
+    if corder == "unknown":
+        ctx.unknown("C14-a", cl, "Compose context loop iterates `%s`, which the analyser cannot relate to self._vars" % A.src(cl.iter))
+        return
+    ctx.check("C14-a", corder == "forward" and A.src(cl.iter) != "self._vars", cl,
               "Compose context loop iterates `%s`, not self._vars[1:] forwards" % A.src(cl.iter),
               detail="context folds over self._vars[1:] forwards", construct="context-iter:%s" % A.src(cl.iter))
     calls = [c for c in A.walk_local(cl) if isinstance(c, ast.Call) and A.call_name(c) == "_update_context"]
